@@ -134,10 +134,11 @@ props['C09'] = {
 }
 props['C08'] = {
     'level': 'proof',
-    'claim': "Ownership clause of every CellBytes case: the returned bytes are a window of the caller's (event-private) buffer or memory allocated by the call, never a package-level buffer or other third-party memory; no store into pre-existing byte memory (frame).",
+    'claim': "Parser: the change buffer is nil or memory allocated after the last accepted delivery (allocation-watermark invariant), so nothing the parser does later writes into a delivered transaction's event list; no store into pre-existing memory anywhere in the loop. Ownership clause of every CellBytes case: the returned bytes are a window of the caller's (event-private) buffer or memory allocated by the call, never a package-level buffer or other third-party memory; no store into pre-existing byte memory (frame).",
     'note': "Trusted: govc's allocation model (fresh objects are distinct from all pre-existing ones), solvers.",
     'technique': GEN,
-    'runs': cell([n for n in TYPES if n not in ('json', 'newdecimal')], include=['ensures:owner', 'frame:.*']),
+    'runs': cell([n for n in TYPES if n not in ('json', 'newdecimal')], include=['ensures:owner', 'frame:.*']) + [{'use': 'parser', 'include': ['inv-.*', 'frame:.*']}],
+    'assumptions': PARSER_ASSUME[:3],
 }
 props['C02'] = {
     'level': 'proof',
